@@ -443,6 +443,9 @@ func (req *IdpAuthnRequest) Validate() error {
 	}
 
 	// find the service provider
+	if req.Request.Issuer == nil {
+		return fmt.Errorf("request has no Issuer")
+	}
 	serviceProviderID := req.Request.Issuer.Value
 	serviceProvider, err := req.IDP.ServiceProviderProvider.GetServiceProvider(req.HTTPRequest, serviceProviderID)
 	if err == os.ErrNotExist {
@@ -982,7 +985,7 @@ func (req *IdpAuthnRequest) WriteResponse(w http.ResponseWriter) error {
 func (req *IdpAuthnRequest) getSPEncryptionCert() (*x509.Certificate, error) {
 	certStr := ""
 	for _, keyDescriptor := range req.SPSSODescriptor.KeyDescriptors {
-		if keyDescriptor.Use == "encryption" {
+		if keyDescriptor.Use == "encryption" && len(keyDescriptor.KeyInfo.X509Data.X509Certificates) != 0 {
 			certStr = keyDescriptor.KeyInfo.X509Data.X509Certificates[0].Data
 			break
 		}
